@@ -399,3 +399,93 @@ def admit_fuseguard(ctx: Ctx) -> None:
         "fuse_multiple reports peak_projected_mem over the same predecessor list the admission guard tested",
         sel="sibling-peak",
     )
+
+
+def _pred_list_shape(repo, f, call_kw_value, fl, cfg, at):
+    """how a predecessor-op list is built: set of (element text, condition text) with local
+    names erased; None when the construction is not understood"""
+    from ..index import anon, scope_locals
+
+    loc = scope_locals(f)
+
+    def shape_of(v, node):
+        if isinstance(v, ast.Name):
+            ds = [s for s in fl.rdefs(v.id, node) if s.value is not None]
+            if len(ds) == 1 and ds[0].kind == "assign":
+                return shape_of(ds[0].value, ds[0].node)
+            return None
+        if isinstance(v, (ast.ListComp, ast.GeneratorExp)) and len(v.generators) == 1:
+            g = v.generators[0]
+            src = anon(g.iter, loc, 200)
+            flt = tuple(sorted(anon(c, loc, 200) for c in g.ifs))
+            el = v.elt
+            if isinstance(el, ast.IfExp):
+                return {(src, flt, anon(el.body, loc, 200), anon(el.test, loc, 200), anon(el.orelse, loc, 200))}
+            return {(src, flt, anon(el, loc, 200), "True", "-")}
+        if isinstance(v, ast.List) and not v.elts:
+            # filled by a loop: appends under conditions
+            return "loop"
+        if isinstance(v, ast.Call):
+            if isinstance(v.func, ast.Name) and v.func.id in ("list", "tuple") and len(v.args) == 1:
+                return shape_of(v.args[0], node)
+            qs = sorted(t.qual for t in repo.resolve_call(v, f, f.module) if t.kind == "def")
+            if qs:
+                # the same helper called the same way at both sites
+                return {("call", qs[0], tuple(anon(a, loc, 200) for a in v.args), tuple(sorted((k.arg or "**", anon(k.value, loc, 200)) for k in v.keywords)))}
+        return None
+
+    return shape_of(call_kw_value, at)
+
+
+@rule("FUSE-TWINLIST-1", props=["C04", "C03", "C02"], floor=1)
+def fuse_twinlist(ctx: Ctx) -> None:
+    """the predecessor operations the admission test of fusion is shown (can_fuse_predecessors →
+    can_fuse_multiple_primitive_ops) are built by the same expression as the ones that are then
+    fused (fuse_predecessors → fuse_multiple): a test that sees fewer predecessors (a repeated
+    one counted once, a filter) admits a fused operation larger than what it judged"""
+    repo = ctx.repo
+    can = repo.get(f"{A.OPT}.can_fuse_predecessors")
+    fus = repo.get(f"{A.OPT}.fuse_predecessors")
+    shapes = {}
+    for f, callee in ((can, "can_fuse_multiple_primitive_ops"), (fus, "fuse_multiple")):
+        fl, cfg = flow_of(repo, f), cfg_of(f)
+        cs = [c for c in f.own_nodes() if isinstance(c, ast.Call) and any(t.kind == "def" and t.ref.name == callee for t in repo.resolve_call(c, f, f.module))]
+        ctx.need(len(cs) == 1, f"{f.name} does not call {callee} exactly once")
+        c = cs[0]
+        # the predecessor list: third positional of the test, the starred argument of the fusion
+        arg = None
+        for a in c.args:
+            if isinstance(a, ast.Starred):
+                arg = a.value
+        if arg is None and len(c.args) >= 3:
+            arg = c.args[2]
+        ctx.need(arg is not None, f"{f.name}: predecessor list argument of {callee} not found")
+        shapes[f.name] = (_pred_list_shape(repo, f, arg, fl, cfg, cfg.node_of(c)), c, arg)
+    (s1, c1, a1), (s2, c2, a2) = shapes[can.name], shapes[fus.name]
+    if s1 is None or s2 is None or s1 == "loop" or s2 == "loop":
+        if s1 == "loop" and s2 != "loop" and s2 is not None:
+            # the test's list is filled by a loop while the fusion's is the one-line form: look
+            # for a membership / seen-set condition in front of an append (a de-duplication)
+            fl, cfg = flow_of(repo, can), cfg_of(can)
+            seen_sets = set()
+            for n in can.own_nodes():
+                if isinstance(n, ast.Call) and isinstance(n.func, ast.Attribute) and n.func.attr == "add" and isinstance(n.func.value, ast.Name):
+                    seen_sets.add(n.func.value.id)
+            dedup = None
+            for n in can.own_nodes():
+                if isinstance(n, ast.Compare) and len(n.ops) == 1 and isinstance(n.ops[0], (ast.NotIn, ast.In)) and isinstance(n.comparators[0], ast.Name) and n.comparators[0].id in seen_sets:
+                    dedup = n
+            if dedup is not None:
+                ctx.ob(can, dedup, False, f"the admission test is shown every predecessor that is fused — `{unparse(dedup, 40)}` leaves out a predecessor that was seen before: an operation that feeds two arguments is judged once and fused twice", sel="twinlist:same", firm=True)
+                return
+        ctx.need(False, "predecessor lists of can_fuse_predecessors / fuse_predecessors: construction not understood")
+    ok = s1 == s2
+    ctx.ob(
+        can,
+        c1,
+        ok,
+        "the admission test is shown the same predecessor list that is fused (same source, same filter, same element)"
+        + ("" if ok else f" — test: {sorted(s1)[0][1:]}; fusion: {sorted(s2)[0][1:]}: the memory and fan-in limits are judged on a different set than the one fused"),
+        sel="twinlist:same",
+        firm=True,
+    )
